@@ -161,6 +161,63 @@ def get_regexp_width(expr: str) -> Union[Tuple[int, int], List[int]]:
                 return 0, int(MAXWIDTH)
 
 
+def _sre_may_match_newline(items, flags: int) -> bool:
+    "Walks a parsed regexp. Returns False only if no match of it can contain a newline."
+    C = sre_constants
+    for op, av in items:
+        if op is C.LITERAL:
+            found = av == 10
+        elif op is C.NOT_LITERAL:
+            found = av != 10
+        elif op is C.ANY:
+            found = bool(flags & re.DOTALL)
+        elif op is C.IN:
+            negate = False
+            found = False
+            for set_op, set_av in av:
+                if set_op is C.NEGATE:
+                    negate = True
+                elif set_op is C.LITERAL:
+                    found = found or set_av == 10
+                elif set_op is C.RANGE:
+                    found = found or set_av[0] <= 10 <= set_av[1]
+                elif set_op is C.CATEGORY:
+                    # Only these categories exclude the newline. Anything else is assumed to include it.
+                    found = found or set_av not in (C.CATEGORY_DIGIT, C.CATEGORY_WORD, C.CATEGORY_NOT_SPACE)
+                else:
+                    found = True
+            found = found != negate
+        elif op is C.BRANCH:
+            found = any(_sre_may_match_newline(alt, flags) for alt in av[1])
+        elif op is C.SUBPATTERN:
+            found = _sre_may_match_newline(av[-1], (flags | av[1]) & ~av[2])
+        elif op in (C.MAX_REPEAT, C.MIN_REPEAT) or op is getattr(C, 'POSSESSIVE_REPEAT', None):
+            found = av[1] != 0 and _sre_may_match_newline(av[2], flags)
+        elif op is getattr(C, 'ATOMIC_GROUP', None):
+            found = _sre_may_match_newline(av, flags)
+        elif op is C.GROUPREF_EXISTS:
+            found = any(_sre_may_match_newline(x, flags) for x in av[1:] if x is not None)
+        elif op in (C.AT, C.ASSERT, C.ASSERT_NOT, C.GROUPREF):
+            # Zero-width, or repeats the text of a group that is examined on its own
+            found = False
+        else:
+            found = True
+        if found:
+            return True
+    return False
+
+def regexp_may_match_newline(expr: str, flags: int=0) -> bool:
+    """Returns False only if no match of the regexp can contain a newline.
+
+    When the regexp can't be analyzed (e.g. it uses syntax of the `regex` module), the answer is True.
+    """
+    try:
+        parsed = sre_parse.parse(expr, flags)
+    except (sre_constants.error, ValueError, OverflowError, RecursionError):
+        return True
+    return _sre_may_match_newline(parsed, parsed.state.flags)
+
+
 @dataclass(frozen=True)
 class TextSlice(Generic[AnyStr]):
     """A view of a string or bytes object, between the start and end indices.
